@@ -29,6 +29,7 @@ import (
 var runners = map[string]func(*wk.Job, *wk.Worker) error{
 	"c01": c01.Run,
 	"fr":  c01.RunFieldRules,
+	"ft":  c01.RunFloatText,
 	"c02": c02.Run,
 	"c05": c05.Run,
 	"c06": c06.Run,
